@@ -41,7 +41,18 @@ func init() { reg.Register("C10", "model_checking", Run) }
 const cfgScen = "SPECIFICATION Spec\nINVARIANTS ScenOK FamiliesWF MachOK Emit\nCHECK_DEADLOCK FALSE\n"
 const cfgTrace = "SPECIFICATION TSpec\nINVARIANTS TInv Report\nCHECK_DEADLOCK FALSE\n"
 
-const tlcWorkers = 8
+// tlcWorkers: at most 8, and half of VERIF_WORKERS on a shared machine
+// (VERIF_WORKERS=4 gives 2).
+func tlcWorkers(c *core.Ctx) int {
+	w := c.Workers / 2
+	if w > 8 {
+		w = 8
+	}
+	if w < 1 {
+		w = 1
+	}
+	return w
+}
 
 const f13Key = "exported_bodyless_linkname_func_not_exported"
 
@@ -85,7 +96,7 @@ func runModel(c *core.Ctx, p tlaParams, timeout time.Duration) ([]*Rec, *tlcx.Re
 		p.Given = []Scen{}
 	}
 	pj, _ := json.Marshal(p)
-	r, err := tlcx.Run(c, tlcx.Opts{Module: "InitScen", Cfg: cfgScen, Workers: tlcWorkers, Timeout: timeout,
+	r, err := tlcx.Run(c, tlcx.Opts{Module: "InitScen", Cfg: cfgScen, Workers: tlcWorkers(c), Timeout: timeout,
 		Files: map[string]string{"c10_params.json": string(pj)}, HeapMB: 6144})
 	if err != nil {
 		return nil, r, err
@@ -373,7 +384,7 @@ func validate(c *core.Ctx, scens []*Scen, traces [][]Event) ([]map[string]bool, 
 			batch = append(batch, tr{scens[i], l})
 		}
 		bj, _ := json.Marshal(batch)
-		r, err := tlcx.Run(c, tlcx.Opts{Module: "InitTrace", Cfg: cfgTrace, Workers: tlcWorkers, Timeout: 20 * time.Minute,
+		r, err := tlcx.Run(c, tlcx.Opts{Module: "InitTrace", Cfg: cfgTrace, Workers: tlcWorkers(c), Timeout: 20 * time.Minute,
 			Files: map[string]string{"c10_traces.json": string(bj)}, HeapMB: 6144})
 		if err != nil {
 			return nil, err
